@@ -240,7 +240,7 @@ def run(repo, root):
 
     # text-level hygiene and the statement/axiom audit
     tie_dir = os.path.join(lean_dir, "UnicLocale", "SrcTie")
-    tactic_bad = forbidden_in(os.path.join(tie_dir, "Tactic.lean")) or forbidden_in(os.path.join(tie_dir, "ParseLemmas.lean")) or forbidden_in(os.path.join(tie_dir, "FmtLemmas.lean"))
+    tactic_bad = forbidden_in(os.path.join(tie_dir, "Tactic.lean")) or forbidden_in(os.path.join(tie_dir, "ParseLemmas.lean")) or forbidden_in(os.path.join(tie_dir, "FmtLemmas.lean")) or forbidden_in(os.path.join(tie_dir, "OpsLemmas.lean"))
     checked = []
     for n in built_ok:
         bad = tactic_bad or forbidden_in(os.path.join(tie_dir, tie_module(n) + ".lean"))
